@@ -63,6 +63,14 @@ def gen(ctx):
                 del exp[rid]
                 cancelled.add(rid)
         items.append((L.Sched(labels=labels + L.flush(rid), note="mixed typed lists"), {"expect": exp, "frames": frames}))
+    # the empty list writes nothing and resolves to the empty result whatever the state of the connection (a server that hung up,
+    # malformed data, failing reads, an exited loop)
+    for fault in (["e"], ["S*", "e"], ["G:" + hexs(b"what\n")], ["r"], ["w", "t100"], ["N:" + hexs("player"), "D7", "e"]):
+        for kind in ("v",):
+            specs, want, lines = any_specs(rng, 2, 1)
+            labels = ["D0", f"{kind}1:" + ",".join(specs), "S*", "D0", "S*", "D0"] + fault + ["t200", f"{kind}2:", "t200", f"{kind}3:", "t200"]
+            items.append((L.Sched(labels=labels, note="empty typed list after the connection ended: " + " ".join(fault)[:20]),
+                          {"expect": {1: "ok[" + ",".join(want) + "]", 2: "ok[]", 3: "ok[]"}, "frames": [lines, [], []]}))
     return items
 
 
